@@ -38,6 +38,10 @@ func c01IsQueryInstr(i ssa.Instruction) bool {
 type c01WaitSet struct {
 	At  ssa.Instruction
 	Val ssa.Value
+	// the options are built by Helper and handed out at its return Ret; Val is then a value inside the helper (a cell
+	// the helper reads) or, for a parameter of the helper, the argument of the call At
+	Helper *ssa.Function
+	Ret    *ssa.Return
 }
 
 // c01WaitSets finds where the WaitIndex of the options q is set.
@@ -59,7 +63,7 @@ func c01WaitSets(q ssa.Value) []c01WaitSet {
 				}
 				for _, r2 := range *fa.Referrers() {
 					if st, ok := r2.(*ssa.Store); ok && st.Addr == fa {
-						out = append(out, c01WaitSet{st, st.Val})
+						out = append(out, c01WaitSet{At: st, Val: st.Val})
 					}
 				}
 			}
@@ -99,9 +103,12 @@ func c01WaitSets(q ssa.Value) []c01WaitSet {
 					for _, ws := range c01WaitSets(res) {
 						if par, ok := c01Strip(ws.Val).(*ssa.Parameter); ok && par.Parent() == sc {
 							if k := c01ParamIndex(par); k >= 0 && k < len(x.Call.Args) {
-								out = append(out, c01WaitSet{x, x.Call.Args[k]})
+								out = append(out, c01WaitSet{x, x.Call.Args[k], sc, r})
 							}
+							continue
 						}
+						// not a parameter: an index the helper reads itself (a field of its receiver, a captured variable)
+						out = append(out, c01WaitSet{x, ws.Val, sc, r})
 					}
 				}
 			})
@@ -124,21 +131,76 @@ func c01Strip(v ssa.Value) ssa.Value {
 	}
 }
 
-// c01Advances: v is (derived from) an index carried by loop l whose value for the next iteration is taken from the
-// results of instruction from (the query, or the call of its wrapper).
+// c01Advances: v is (derived from) an index carried across the rounds whose value for the next round is taken from the
+// results of instruction from (the query, or the call of its wrapper). The index is carried either by a variable of the
+// loop l (a phi of its head), or by a memory cell that outlives a round - a field of a watcher / cursor struct, a
+// captured variable - into which a value derived from the reply is stored. l == nil: the rounds are the calls of the
+// function of v (a wrapper called from the loop outer).
 func c01Advances(v ssa.Value, l *loop, from ssa.Value) bool {
+	return c01AdvancesIn(v, l, nil, from)
+}
+
+func c01AdvancesIn(v ssa.Value, l, outer *loop, from ssa.Value) bool {
 	return derives(v, func(x ssa.Value) bool {
-		phi, ok := x.(*ssa.Phi)
-		if !ok || phi.Block() != l.Head {
-			return false
-		}
-		for k, e := range phi.Edges {
-			if l.Body[l.Head.Preds[k]] && derives(e, func(y ssa.Value) bool { return y == from }) {
-				return true
+		switch y := x.(type) {
+		case *ssa.Phi:
+			if l == nil || y.Block() != l.Head {
+				return false
+			}
+			for k, e := range y.Edges {
+				if l.Body[l.Head.Preds[k]] && derives(e, func(z ssa.Value) bool { return z == from }) {
+					return true
+				}
+			}
+		case *ssa.UnOp:
+			if y.Op == token.MUL {
+				return c01CellAdvances(y, l, outer, from)
 			}
 		}
 		return false
 	})
+}
+
+// c01CellAdvances: the loaded cell outlives a round and is assigned a value derived from the reply `from`.
+func c01CellAdvances(ld *ssa.UnOp, l, outer *loop, from ssa.Value) bool {
+	t := c01TracerOf(ld.Parent())
+	if t == nil {
+		return false
+	}
+	for _, loc := range t.locsOf(ld.X, nil) {
+		if !loc.known() {
+			continue
+		}
+		if a, ok := loc.root.(*ssa.Alloc); ok && (c01FreshPerRound(a, l, ld.Parent()) || (outer != nil && c01FreshPerRound(a, outer, nil))) {
+			continue
+		}
+		for _, st := range t.storesInto(loc.root, loc.path) {
+			if derives(st.Val, func(z ssa.Value) bool { return z == from }) {
+				return true
+			}
+		}
+	}
+	return false
+}
+
+// c01FreshPerRound: the object is allocated anew in every round: inside the loop l (or, l == nil, inside the function fn
+// whose calls are the rounds), or in a function called from there.
+func c01FreshPerRound(a *ssa.Alloc, l *loop, fn *ssa.Function) bool {
+	isAlloc := func(i ssa.Instruction) bool { return i == ssa.Instruction(a) }
+	if l == nil {
+		if fn == nil {
+			return false
+		}
+		return a.Parent() == fn || mayExec(fn, isAlloc, 0)
+	}
+	for b := range l.Body {
+		for _, in := range b.Instrs {
+			if in == ssa.Instruction(a) || liftMay(isAlloc)(in) {
+				return true
+			}
+		}
+	}
+	return false
 }
 
 func c01IsSleep(i ssa.Instruction) bool {
@@ -164,21 +226,56 @@ func c01IsSleepOrRecv(i ssa.Instruction) bool {
 }
 
 // c01DirectPaced: the query `call` inside loop l blocks: from the head of the loop the query cannot be reached
-// without sleeping (poll mode) or setting the WaitIndex of its options to the loop-carried, advancing index.
+// without sleeping (poll mode) or setting the WaitIndex of its options to the carried, advancing index.
 func c01DirectPaced(call *ssa.Call, q ssa.Value, l *loop) bool {
+	return c01DirectPacedIn(call, q, l, nil)
+}
+
+// c01DirectPacedIn: l == nil: the rounds are the calls of the query's function (a wrapper called from the loop outer):
+// from its entry the query cannot be reached without sleeping or waiting on an index kept in a cell that outlives the call.
+func c01DirectPacedIn(call *ssa.Call, q ssa.Value, l, outer *loop) bool {
 	good := map[ssa.Instruction]bool{}
+	helperOf := map[ssa.Instruction]*ssa.Function{}
+	setAt := map[ssa.Instruction]map[*ssa.Return]bool{}
 	for _, ws := range c01WaitSets(q) {
-		if c01Advances(ws.Val, l, call) {
-			good[ws.At] = true
+		adv := c01AdvancesIn(ws.Val, l, outer, call)
+		if ws.Helper == nil {
+			if adv {
+				good[ws.At] = true
+			}
+			continue
 		}
+		helperOf[ws.At] = ws.Helper
+		if setAt[ws.At] == nil {
+			setAt[ws.At] = map[*ssa.Return]bool{}
+		}
+		if adv {
+			setAt[ws.At][ws.Ret] = true
+		}
+	}
+	// options built by a helper: every return of the helper hands out options that wait on the advancing index, or is
+	// reached only after a sleep (poll mode)
+	for at, h := range helperOf {
+		ok := true
+		for _, r := range c01Returns(h) {
+			if !setAt[at][r] && !c01SleepsBefore(r) {
+				ok = false
+			}
+		}
+		good[at] = ok
 	}
 	pass := liftMust(func(i ssa.Instruction) bool { return good[i] || c01IsSleepOrRecv(i) }, 1)
 	type item struct {
 		b   *ssa.BasicBlock
 		idx int
 	}
-	seen := map[*ssa.BasicBlock]bool{}
-	stack := []item{{l.Head, 0}}
+	fn := call.Parent()
+	start := fn.Blocks[0]
+	if l != nil {
+		start = l.Head
+	}
+	seen := map[*ssa.BasicBlock]bool{start: true}
+	stack := []item{{start, 0}}
 	for len(stack) > 0 {
 		it := stack[len(stack)-1]
 		stack = stack[:len(stack)-1]
@@ -199,13 +296,45 @@ func c01DirectPaced(call *ssa.Call, q ssa.Value, l *loop) bool {
 		for _, s := range it.b.Succs {
 			if ef, ok := c01EdgeFact(it.b, s); ok {
 				// the edge on which the carried reply is still nil is taken in the first iteration only
-				if nn, isNil := nilFact(ef, func(v ssa.Value) bool { return c01Advances(v, l, call) }); isNil && !nn {
+				if nn, isNil := nilFact(ef, func(v ssa.Value) bool { return c01AdvancesIn(v, l, outer, call) }); isNil && !nn {
 					continue
 				}
 			}
-			if l.Body[s] && s != l.Head && !seen[s] {
+			if (l == nil || (l.Body[s] && s != l.Head)) && !seen[s] {
 				seen[s] = true
 				stack = append(stack, item{s, 0})
+			}
+		}
+	}
+	return true
+}
+
+// c01SleepsBefore: every path from the entry of r's function to r sleeps (or receives).
+func c01SleepsBefore(r *ssa.Return) bool {
+	fn := r.Parent()
+	pass := liftMust(c01IsSleepOrRecv, 1)
+	seen := map[*ssa.BasicBlock]bool{fn.Blocks[0]: true}
+	stack := []*ssa.BasicBlock{fn.Blocks[0]}
+	for len(stack) > 0 {
+		b := stack[len(stack)-1]
+		stack = stack[:len(stack)-1]
+		blocked := false
+		for _, in := range b.Instrs {
+			if pass(in) {
+				blocked = true
+				break
+			}
+			if in == ssa.Instruction(r) {
+				return false
+			}
+		}
+		if blocked {
+			continue
+		}
+		for _, s := range b.Succs {
+			if !seen[s] {
+				seen[s] = true
+				stack = append(stack, s)
 			}
 		}
 	}
@@ -257,7 +386,9 @@ func c01WaitParams(f *ssa.Function, depth int) map[int]bool {
 }
 
 // c01WrapperPaced: instruction i (inside loop l) calls a helper that issues a blocking query with the index it is given,
-// and the index given is the loop-carried, advancing one.
+// and the index given is the loop-carried, advancing one; or the helper keeps the index itself (in a field of its
+// receiver, a captured variable): every query it issues waits on a cell that outlives the call and that is advanced
+// from the reply.
 func c01WrapperPaced(i ssa.Instruction, l *loop) bool {
 	call, ok := i.(*ssa.Call)
 	if !ok {
@@ -268,15 +399,57 @@ func c01WrapperPaced(i ssa.Instruction, l *loop) bool {
 		return false
 	}
 	ks := c01WaitParams(unwrap(sc), 0)
-	if len(ks) == 0 {
-		return false
-	}
-	for k := range ks {
-		if k >= len(call.Call.Args) || !c01Advances(call.Call.Args[k], l, call) {
-			return false
+	if len(ks) > 0 {
+		all := true
+		for k := range ks {
+			if k >= len(call.Call.Args) || !c01Advances(call.Call.Args[k], l, call) {
+				all = false
+			}
+		}
+		if all {
+			return true
 		}
 	}
-	return true
+	return c01SelfPaced(unwrap(sc), l, 0)
+}
+
+// c01SelfPaced: every blocking query fn issues (itself or through wrappers) is paced without the help of fn's caller.
+func c01SelfPaced(fn *ssa.Function, outer *loop, depth int) bool {
+	if fn == nil || len(fn.Blocks) == 0 || depth > 2 {
+		return false
+	}
+	n, ok := 0, true
+	for _, b := range fn.Blocks {
+		for _, in := range b.Instrs {
+			if qc, q, isQ := c01Query(in); isQ {
+				n++
+				if !c01DirectPacedIn(qc, q, nil, outer) {
+					ok = false
+				}
+				continue
+			}
+			call, isCall := in.(*ssa.Call)
+			if !isCall {
+				continue
+			}
+			sc := call.Call.StaticCallee()
+			if sc == nil || !isRepoFn(sc) || unwrap(sc) == fn || !mayExec(unwrap(sc), c01IsQueryInstr, 0) {
+				continue
+			}
+			n++
+			ks := c01WaitParams(unwrap(sc), 0)
+			all := len(ks) > 0
+			for k := range ks {
+				if k >= len(call.Call.Args) || !c01AdvancesIn(call.Call.Args[k], nil, outer, call) {
+					all = false
+				}
+			}
+			if !all && !c01SelfPaced(unwrap(sc), outer, depth+1) {
+				ok = false
+			}
+		}
+	}
+	return n > 0 && ok
 }
 
 // c01BasicPacing: the operations that pace a loop whatever the loop is.
